@@ -76,6 +76,7 @@ fn composite_samples() -> Vec<Value> {
     d_sc.insert("dtz".into(), Value::make_datetime_from_iso("2021-06-19T19:48:23Z").unwrap());
     d_sc.insert("dtl".into(), Value::make_datetime(libhaystack::val::DateTime::parse_from_rfc3339_with_timezone("2021-01-19T19:48:23Z", "London").unwrap()));
     d_sc.insert("dtk".into(), Value::make_datetime(libhaystack::val::DateTime::parse_from_rfc3339_with_timezone("2021-06-19T19:48:23+05:30", "Kolkata").unwrap()));
+    d_sc.insert("dtj".into(), Value::make_datetime(libhaystack::val::DateTime::parse_from_rfc3339_with_timezone("2021-01-15T12:00:00-03:30", "St_Johns").unwrap()));
     d_sc.insert("date".into(), Value::make_date(libhaystack::val::Date::from_ymd(2021, 6, 19).unwrap()));
     d_sc.insert("time".into(), Value::make_time(libhaystack::val::Time::from_hms_milli(23, 59, 59, 999).unwrap()));
     d_sc.insert("unit".into(), Value::make_number_unit(3.0, libhaystack::units::get_unit_or_default("kW")));
@@ -244,8 +245,26 @@ fn main() {
                     bad = true;
                 }
             }
+            // object members in any order: `_kind` last or in the middle denotes the same value
+            let docs: [(&str, Value); 8] = [
+                (r#"{"val":"abc","_kind":"ref","dis":"Abc"}"#, Value::make_ref_with_dis("abc", "Abc")),
+                (r#"{"val":"abc","dis":"Abc","_kind":"ref"}"#, Value::make_ref_with_dis("abc", "Abc")),
+                (r#"{"val":42.5,"unit":"m","_kind":"number"}"#, Value::make_number_unit(42.5, libhaystack::units::get_unit_or_default("m"))),
+                (r#"{"lat":45.0,"_kind":"coord","lng":23.0}"#, Value::make_coord_from(45.0, 23.0)),
+                (r#"{"val":"s","_kind":"symbol"}"#, Value::make_symbol("s")),
+                (r#"{"val":"u","_kind":"uri"}"#, Value::make_uri("u")),
+                (r#"{"val":"v","type":"T","_kind":"xstr"}"#, Value::make_xstr_from("T", "v")),
+                (r#"{"val":"2021-06-19","_kind":"date"}"#, Value::make_date(libhaystack::val::Date::from_ymd(2021, 6, 19).unwrap())),
+            ];
+            for (doc, want) in &docs {
+                let got = serde_json::from_str::<Value>(doc);
+                if !matches!(&got, Ok(g) if g == want && format!("{g:?}") == format!("{want:?}")) {
+                    println!("RESULT enum:hayson-roundtrip document={doc} decoded={got:?} expected={want:?}");
+                    bad = true;
+                }
+            }
             if bad { std::process::exit(3); }
-            println!("RESULT enum:hayson-roundtrip composite samples come back through the Hayson writer and reader");
+            println!("RESULT enum:hayson-roundtrip composite samples come back through the Hayson writer and reader; members are read in any order");
         }
         "enum:zinc-encode-panics" => {
             use libhaystack::encoding::zinc::encode::ToZinc;
@@ -324,7 +343,25 @@ fn main() {
                     drop(Box::from_raw(r));
                 }
             }
-            println!("RESULT enum:capi-list list handles agree with Vec semantics on all small cases; scalar getters and kind tests agree with the Rust API on the samples");
+            // dict handles against map semantics
+            {
+                use libhaystack::c_api::dict::*;
+                let fail = |what: &str| { println!("RESULT enum:capi-list dict handle: {what}"); std::process::exit(3); };
+                let d = Box::into_raw(haystack_value_make_dict());
+                let k = |s: &str| std::ffi::CString::new(s).unwrap();
+                let e1 = Box::into_raw(Box::new(Value::make_int(1)));
+                let e2 = Box::into_raw(Box::new(Value::make_str("two")));
+                if haystack_value_insert_dict_entry(d, k("a").as_ptr(), e1) != ResultType::TRUE || haystack_value_insert_dict_entry(d, k("b").as_ptr(), e2) != ResultType::TRUE { fail("insert"); }
+                if haystack_value_insert_dict_entry(d, k("a").as_ptr(), e2) != ResultType::TRUE || haystack_value_get_dict_len(d) != 2 { fail("insert on an existing key replaces"); }
+                let mut out: *const Value = std::ptr::null();
+                if haystack_value_get_dict_entry(d, k("a").as_ptr(), &mut out) != ResultType::TRUE || *out != Value::make_str("two") { fail("get of a present key"); }
+                if haystack_value_get_dict_entry(d, k("zz").as_ptr(), &mut out) != ResultType::FALSE { fail("get of a missing key must be FALSE, not an error"); }
+                if haystack_value_remove_dict_entry(d, k("a").as_ptr()) != ResultType::TRUE || haystack_value_get_dict_len(d) != 1 { fail("remove"); }
+                if haystack_value_get_dict_entry(d, k("a").as_ptr(), &mut out) != ResultType::FALSE { fail("get after remove"); }
+                if haystack_value_get_dict_len(e1) != usize::MAX { fail("len of a non-dict handle"); }
+                drop(Box::from_raw(e1)); drop(Box::from_raw(e2)); drop(Box::from_raw(d));
+            }
+            println!("RESULT enum:capi-list list handles agree with Vec semantics on all small cases; scalar getters and kind tests agree with the Rust API on the samples; dict handles agree with map semantics");
         },
         // ---- C01 enumerator: scalar values through the real Zinc writer and reader; exit 3 on the first that does not come back
         "enum:zinc-roundtrip-scalars" => {
@@ -423,6 +460,98 @@ fn main() {
                 std::process::exit(3);
             }
             println!("RESULT enum:filter-print-parse {} filters survive print-then-parse", texts.len());
+        }
+        // ---- C12 enumerator: the laws on a set of values with deliberate near-collisions, all pairs and triples; exit 3 on a violated law
+        "enum:eq-laws" => {
+            use libhaystack::val::Dict;
+            let unit = |s: &str| libhaystack::units::get_unit_or_default(s);
+            let mk = |pairs: &[(&str, Value)]| { let mut d = Dict::new(); for (k, v) in pairs { d.insert((*k).into(), v.clone()); } d };
+            let dt = |s: &str, tz: &str| Value::make_datetime(libhaystack::val::DateTime::parse_from_rfc3339_with_timezone(s, tz).unwrap());
+            let vals: Vec<Value> = vec![
+                Value::Null, Value::Marker, Value::Na, Value::Remove, Value::make_true(), Value::make_false(),
+                Value::make_number(0.0), Value::make_number(-0.0), Value::make_number(1.0), Value::make_number(2.0),
+                Value::make_number_unit(1.0, unit("m")), Value::make_number_unit(1.0, unit("ft")), Value::make_number_unit(2.0, unit("m")),
+                Value::make_str("a"), Value::make_uri("a"), Value::make_symbol("a"), Value::make_ref("a"), Value::make_ref_with_dis("a", "A"),
+                Value::make_ref_with_dis("a", "B"), Value::make_ref("b"), Value::make_xstr_from("A", "a"),
+                Value::make_coord_from(0.0, -0.0), Value::make_coord_from(-0.0, 0.0), Value::make_coord_from(1.0, 2.0),
+                Value::make_list(vec![]), Value::make_list(vec![Value::make_int(1)]), Value::make_list(vec![Value::make_int(1), Value::make_int(2)]),
+                Value::make_list(vec![Value::make_number_unit(1.0, unit("m"))]),
+                Value::make_dict(mk(&[])), Value::make_dict(mk(&[("a", Value::make_int(2))])), Value::make_dict(mk(&[("a", Value::make_int(1)), ("c", Value::make_int(1))])),
+                Value::make_dict(mk(&[("a", Value::make_int(2)), ("b", Value::make_int(1))])), Value::make_dict(mk(&[("a", Value::make_int(1))])),
+                dt("2021-01-19T19:48:23Z", "UTC"), dt("2021-01-19T19:48:23Z", "London"), dt("2021-01-19T14:48:23-05:00", "New_York"), dt("2021-01-19T19:48:24Z", "UTC"),
+            ];
+            for a in &vals { for b in &vals { for c in &vals {
+                let bad = laws(a, b, c);
+                if !bad.is_empty() {
+                    println!("RESULT enum:eq-laws a={a:?} b={b:?} c={c:?} violated={bad:?}");
+                    std::process::exit(3);
+                }
+            } } }
+            println!("RESULT enum:eq-laws {} values, all pairs and triples satisfy the equality / hash / order laws", vals.len());
+        }
+        // ---- C19 enumerator: kinds are exclusive on sample values; a grid built from records keeps them as rows and has one sorted column per distinct tag
+        "enum:kinds-grid" => {
+            use libhaystack::val::{Dict, Grid};
+            let mut samples = composite_samples();
+            samples.extend([Value::Null, Value::Marker, Value::Na, Value::Remove, Value::make_true(), Value::make_number(1.0), Value::make_str("s"),
+                Value::make_uri("u"), Value::make_symbol("s"), Value::make_ref("r"), Value::make_xstr_from("T", "v"), Value::make_coord_from(1.0, 2.0),
+                Value::make_date(libhaystack::val::Date::from_ymd(2021, 6, 19).unwrap()), Value::make_time(libhaystack::val::Time::from_hms(1, 2, 3).unwrap())]);
+            for v in &samples {
+                let preds = [v.is_null(), v.is_marker(), v.is_na(), v.is_remove(), v.is_bool(), v.is_number(), v.is_str(), v.is_uri(), v.is_symbol(), v.is_ref(),
+                    v.is_xstr(), v.is_coord(), v.is_date(), v.is_time(), v.is_datetime(), v.is_list(), v.is_dict(), v.is_grid()];
+                if preds.iter().filter(|p| **p).count() != 1 {
+                    println!("RESULT enum:kinds-grid value={v:?} satisfies {} kind predicates", preds.iter().filter(|p| **p).count());
+                    std::process::exit(3);
+                }
+            }
+            let mk = |pairs: &[(&str, Value)]| { let mut d = Dict::new(); for (k, v) in pairs { d.insert((*k).into(), v.clone()); } d };
+            let recsets: Vec<Vec<Dict>> = vec![
+                vec![mk(&[("id", Value::make_ref("a")), ("dis", Value::make_str("A")), ("geoCity", Value::Null)]), mk(&[("id", Value::make_ref("b")), ("area", Value::make_int(10))])],
+                vec![mk(&[("z", Value::Marker)]), mk(&[]), mk(&[("a", Value::Na), ("z", Value::Remove)])],
+                vec![mk(&[])],
+            ];
+            for recs in recsets {
+                let g = Grid::make_from_dicts(recs.clone());
+                let mut want: Vec<String> = recs.iter().flat_map(|r| r.keys().cloned()).collect();
+                want.sort(); want.dedup();
+                let got: Vec<String> = g.columns.iter().map(|c| c.name.clone()).collect();
+                if g.rows != recs || got != want {
+                    println!("RESULT enum:kinds-grid records={recs:?} columns={got:?} expected columns={want:?} rows kept={}", g.rows == recs);
+                    std::process::exit(3);
+                }
+            }
+            println!("RESULT enum:kinds-grid {} values have exactly one kind; grids built from records keep the rows and have one sorted column per tag", samples.len());
+        }
+        // ---- C11 enumerator: decoding the Zinc text of each composite sample from a reader that delivers 1, 2, 3 or 7 bytes per read call
+        //      gives the same value as decoding the buffer; exit 3 on a difference
+        "enum:stream-chunks" => {
+            use libhaystack::encoding::zinc::encode::ToZinc;
+            struct Chunked<'a> { data: &'a [u8], pos: usize, n: usize }
+            impl<'a> std::io::Read for Chunked<'a> {
+                fn read(&mut self, buf: &mut [u8]) -> std::io::Result<usize> {
+                    let k = self.n.min(buf.len()).min(self.data.len() - self.pos);
+                    buf[..k].copy_from_slice(&self.data[self.pos..self.pos + k]);
+                    self.pos += k;
+                    Ok(k)
+                }
+            }
+            let all = composite_samples();
+            let mut cases = 0;
+            for v in &all[..all.len() - 1] {
+                let text = v.to_zinc_string().expect("zinc");
+                let want = from_str(&text);
+                for n in [1usize, 2, 3, 7] {
+                    let mut rd = Chunked { data: text.as_bytes(), pos: 0, n };
+                    let got = libhaystack::encoding::zinc::decode::parser::Parser::make(&mut rd).and_then(|mut p| p.parse_value());
+                    cases += 1;
+                    let same = match (&got, &want) { (Ok(a), Ok(b)) => a == b && format!("{a:?}") == format!("{b:?}"), (Err(_), Err(_)) => true, _ => false };
+                    if !same {
+                        println!("RESULT enum:stream-chunks text={text:?} chunk={n} from_reader={got:?} from_str={want:?}");
+                        std::process::exit(3);
+                    }
+                }
+            }
+            println!("RESULT enum:stream-chunks {cases} chunked decodes agree with buffer decoding");
         }
         // ---- C07 enumerator: a small universe of filters x records against an oracle written from the filter semantics; exit 3 on mismatch
         "enum:filter-eval" => {
